@@ -135,10 +135,10 @@ func TestVerif_C01_Random(t *testing.T) {
 		g := &corpus.QGen{Rng: rng, C: c}
 		// targeted atoms that are rare in random trees: symbol atoms whose text ends exactly at (or
 		// one rune beyond) a section boundary, exact/substring branch atoms, file tombstoned names
-		for k := 0; k < 3; k++ {
+		for k := 0; k < 6; k++ {
 			pat := c.PickSymbolPattern(rng)
 			var e *corpus.Q
-			if k == 2 {
+			if k%3 == 2 {
 				e = &corpus.Q{T: "regex", Pat: "^" + regexpQuote(pat) + "$", CT: true, CS: true}
 			} else {
 				e = &corpus.Q{T: "substr", Pat: pat, CT: true, CS: rng.Intn(2) == 0}
